@@ -404,3 +404,43 @@ def rule_addr_map(chk, prog, rule, role):
         chk.finding(rule, c.fn.key, "lossy-v4-map", "", c.where(),
                     "%s converts an IPv6 address with Ipv6Addr::to_ipv4, which also rewrites ::1 to 0.0.0.1 and ::a.b.c.d to a.b.c.d: the %s is no longer "
                     "the real one for addresses in ::/96 (use to_ipv4_mapped)" % (c.fn.path, role))
+
+
+def rule_wire(chk, prog, rule="WIRE", which=("REQ4", "RESP4", "RESP5")):
+    """Encoder and decoder of the same SOCKS message agree on its layout: the sequences of fixed-width fields, NUL-terminated strings
+    and length-prefixed strings written on the successful paths of the encoder are exactly those the project's own decoder of that
+    message reads (engine/wire.py).  A byte too many or too few on one alternative (an unconditional terminator, a field written for
+    one address form only) is a handshake byte that ends up inside the tunnelled stream, or a payload byte eaten by the handshake."""
+    from .. import wire
+    PAIRS = {
+        "REQ4": (r"^common::socks::SocksRequest::<T>::write_v4$", r"^common::socks::SocksRequest::<T>::read_v4$", (1,), True,
+                 "SOCKS4/4a request (version byte read by read_from)"),
+        "RESP4": (r"^common::socks::SocksResponse::write_v4$", r"^common::socks::SocksResponse::read_v4$", (1,), True, "SOCKS4 reply"),
+        "RESP5": (r"^common::socks::SocksResponse::write_v5$", r"^common::socks::SocksResponse::read_v5$", (1,), False,
+                  "SOCKS5 reply (address assembled in a buffer by the encoder: compared field by field with a wildcard)"),
+    }
+    n = 0
+    for name in which:
+        wp, rp, prefix, both, label = PAIRS[name]
+        wf, rf = prog.find(wp, "redproxy_rs"), prog.find(rp, "redproxy_rs")
+        if len(wf) != 1 or len(rf) != 1:
+            chk.anchor_missing(rule, "encoder/decoder pair %s" % name)
+            continue
+        wl = wire.layouts(prog, prog.body_of(wf[0]))
+        rl = wire.layouts(prog, prog.body_of(rf[0]))
+        if wl is None or rl is None or not wl or not rl:
+            chk.finding(rule, wf[0].key, "layout-unrecognised", name, "%s:%s" % (wf[0].file, wf[0].line),
+                        "the socket operations of %s / %s could not be enumerated (too many paths or an unknown shape); failing closed" % (wf[0].path, rf[0].path))
+            continue
+        n += 1
+        rl2 = wire.fold_lstr(rl)
+        missing, unused = wire.compatible(wl, rl2, prefix)
+        ok = not missing and (not unused or not both)
+        chk.instance(rule, "%s:%s" % (wf[0].file, wf[0].line), "%s: layouts written %s = layouts read %s" % (
+            label, sorted(wl, key=str), sorted(set(tuple(prefix) + r for r in rl2), key=str)), ok)
+        if not ok:
+            chk.finding(rule, wf[0].key, "layout-mismatch", name, "%s:%s" % (wf[0].file, wf[0].line),
+                        "%s: %s can put %s on the wire, which %s does not read as one message%s: the surplus or missing bytes shift the boundary "
+                        "between handshake and tunnelled payload" % (label, wf[0].path, sorted(missing, key=str) or "nothing unexpected", rf[0].path,
+                                                                    ("; and never produces %s which the decoder expects" % sorted(unused, key=str)) if (unused and both) else ""))
+    chk.floor(rule, n, len(which), "encoder/decoder pairs compared")
